@@ -282,6 +282,9 @@ def mb_reader_rules(ck, P):
 
 def rules(ck, P):
     mb_reader_rules(ck, P)
+    # PMTiles tile ids: Hilbert digit tables, quadrant transform, level base, step order (finite tables and term shapes)
+    from . import hilbert as _hilbert
+    _hilbert.rules(ck, P)
     # tar / directory: the tile map is written by plain insert(coord, range) only — for a name that occurs twice in an archive (tar -r / -u
     # append a replacement) the later member wins, as tar readers do; and the lookup reads that map with the requested coordinate (shared with C03)
     from . import c03 as _c03
